@@ -66,11 +66,17 @@ func runC12(c *Ctx) {
 				// every successful return must be guarded by a test on bits that is false for bits == 0
 				core.EachInstr(f, func(in ssa.Instruction) {
 					ret, ok := in.(*ssa.Return)
-					if !ok || len(ret.Results) != 2 || !core.IsNilConst(ret.Results[1]) {
+					if !ok || len(ret.Results) != 2 {
 						return
 					}
-					c.check(guardExcludesZero(ret, bits), "C12.mask.size-sentinel", f, "success return guarded by bits != 0", ret,
-						"a nil or non-contiguous mask (Size() == 0, 0) must be rejected on every path to a nil error")
+					// per arriving error value: nil only on paths where bits != 0 holds
+					for _, lf := range core.Facts(f).Leaves(ret.Results[1], ret) {
+						if !core.IsNilConst(lf.V) {
+							continue
+						}
+						c.check(factsExcludeZero(lf.Facts, bits), "C12.mask.size-sentinel", f, "success return guarded by bits != 0", ret,
+							"a nil or non-contiguous mask (Size() == 0, 0) must be rejected on every path to a nil error")
+					}
 				})
 			}
 			if ones == nil {
@@ -259,7 +265,15 @@ func runC12(c *Ctx) {
 // guardExcludesZero reports whether some dominating branch outcome on a
 // comparison of v with a constant is false when v == 0.
 func guardExcludesZero(in ssa.Instruction, v ssa.Value) bool {
+	var fs []core.Fact
 	for _, g := range core.GuardsOf(in) {
+		fs = append(fs, core.Fact{Cond: g.Cond, Truth: g.Truth})
+	}
+	return factsExcludeZero(fs, v)
+}
+
+func factsExcludeZero(facts []core.Fact, v ssa.Value) bool {
+	for _, g := range facts {
 		cond, truth := core.StripNot(g.Cond, g.Truth)
 		b, ok := cond.(*ssa.BinOp)
 		if !ok {
@@ -418,6 +432,39 @@ func c12Delegates(c *Ctx, f *ssa.Function, target string) {
 				// evaluated per value that may arrive (phi edges carry their own facts)
 				isK, found, famOK := true, true, true
 				to4Fact := func(facts []core.Fact) (v4, ok bool) {
+					// To4 returns nil or exactly 4 bytes: tests of its length say the same
+					isTo4Of := func(x ssa.Value) bool {
+						t4, isC := x.(*ssa.Call)
+						if !isC || core.CalleeName(&t4.Call) != "(net.IP).To4" {
+							return false
+						}
+						src := t4.Call.Args[0]
+						if fn, base, isLd := core.IsLoadOfField(src); isLd && fn == "IP" {
+							src = base
+						}
+						return src == ssa.Value(f.Params[0])
+					}
+					lenOfTo4 := func(x ssa.Value) bool {
+						if cv, isCv := x.(*ssa.Convert); isCv {
+							x = cv.X
+						}
+						lc, isC := x.(*ssa.Call)
+						if !isC || core.CalleeName(&lc.Call) != "builtin.len" {
+							return false
+						}
+						return isTo4Of(lc.Call.Args[0])
+					}
+					for _, g := range facts {
+						if v, isZero, okZ := core.ZeroTest(g.Cond, g.Truth); okZ && lenOfTo4(v) {
+							return !isZero, true
+						}
+						cond, truth := core.StripNot(g.Cond, g.Truth)
+						if bo, isB := cond.(*ssa.BinOp); isB && (bo.Op == token.EQL || bo.Op == token.NEQ) && lenOfTo4(bo.X) {
+							if k, isK := core.ConstInt(bo.Y); isK && k == 4 {
+								return (bo.Op == token.EQL) == truth, true
+							}
+						}
+					}
 					for _, g := range facts {
 						cond, truth := core.StripNot(g.Cond, g.Truth)
 						b, isB := cond.(*ssa.BinOp)
